@@ -34,13 +34,13 @@ EXHAUSTIVE = {'quick': True, 'thorough': True}
 MIN_HITS = {
     'quick': {
         'mon:size': 30000, 'mon:count': 30000, 'mon:window': 40000, 'mon:balance': 20000, 'mon:cover': 18000,
-        'mon:cyclic': 9000, 'mon:reshuffle': 800, 'mon:reiterate': 40000, 'mon:rows': 50000, 'mon:readonly': 30000,
+        'mon:cyclic': 9000, 'mon:reshuffle': 800, 'mon:reiterate': 40000, 'concurrent-iterators': 3000, 'mon:rows': 50000, 'mon:readonly': 30000,
         'count:epochs': 1500, 'count:epochs-drop': 1500, 'count:steps': 5000, 'count:min-epochs-steps': 15000,
         'count:infinite': 1000, 'straddle>=2': 4000, 'B>N': 10000, 'seed=None': 5000,
     },
     'thorough': {
         'mon:size': 90000, 'mon:count': 90000, 'mon:window': 140000, 'mon:balance': 70000, 'mon:cover': 60000,
-        'mon:cyclic': 25000, 'mon:reshuffle': 10000, 'mon:reiterate': 140000, 'mon:rows': 160000, 'mon:readonly': 80000,
+        'mon:cyclic': 25000, 'mon:reshuffle': 10000, 'mon:reiterate': 140000, 'concurrent-iterators': 10000, 'mon:rows': 160000, 'mon:readonly': 80000,
         'count:epochs': 7000, 'count:epochs-drop': 7000, 'count:steps': 18000, 'count:min-epochs-steps': 50000,
         'count:infinite': 6000, 'straddle>=2': 20000, 'B>N': 45000, 'seed=None': 18000,
     },
@@ -204,6 +204,34 @@ def run_point(ctx, cd, rng, n, b, e, s, drop, skip, seed, cut=None):
                 'second iteration over the same view yields different batches', wit)
       ctx.check(same_batches(it1, it3), 'reiterate/fresh-view-differs',
                 'a fresh view with identical hyper-parameters yields different batches', wit)
+    # Two iterators over ONE view object alive at the same time (zip(view, view), nested passes): each must behave
+    # like a stand-alone iteration -- with a fixed seed identical to it, otherwise still a valid stream on its own.
+    if (expected is None or expected > 1) and (wit['N'] * 7 + b + (seed or 0)) % 3 == 0:
+      def lockstep():
+        view = make_view()
+        a, c = iter(view), iter(view)
+        o1, o2 = [], []
+        for _ in range(cap):
+          x = next(a, None)
+          y = next(c, None)
+          if x is None and y is None:
+            break
+          if x is not None:
+            o1.append(x)
+          if y is not None:
+            o2.append(y)
+        return o1, o2
+
+      r2 = ctx.call('ClientDataset.shuffle_repeat_batch[two-live-iterators]', lockstep, witness=wit)
+      if r2.ok:
+        c1, c2 = r2.value
+        if seed is not None or skip:
+          ctx.check(same_batches(c1, it1) and same_batches(c2, it1), 'reiterate/concurrent-iterators-interfere',
+                    'two live iterators over the same view do not both reproduce the stand-alone seeded stream', wit)
+        else:
+          judge_stream(ctx, {**wit, 'iteration': 'lockstep-1'}, ref, n, b, base, c1, expected, mode, skip)
+          judge_stream(ctx, {**wit, 'iteration': 'lockstep-2'}, ref, n, b, base, c2, expected, mode, skip)
+        ctx.count('concurrent-iterators')
   ctx.check(gen.digest(raw) == dig, 'readonly/raw-mutated', 'raw dataset arrays changed', wit)
 
   nb = cap if infinite else expected
